@@ -6,8 +6,7 @@
 #include "rfc6716_framing.h"
 void harness(void){
   int len=vt_range(0,MAXLEN);
-  unsigned char *data=vt_alloc(len);            /* exact-size object: any over-read is a bounds failure */
-  VT_FILL(data,len,MAXLEN);
+  VT_TAILBUF(data,len,MAXLEN);                  /* data ends at the end of its object: any over-read is a bounds failure */
   if(len>0) __CPROVER_assume((data[0]&3)==CODE);
 #ifdef COUNTMAX
   if(len>1) __CPROVER_assume((data[1]&0x3F)<=COUNTMAX);
